@@ -8,10 +8,13 @@ import time
 import lib
 
 ID = 'C14'
-GEN_FILES = ['T_require', 'T_files_build', 'T_lexer', 'T_parser', 'T_pins_parser', 'T_pins_lexer']
+GEN_FILES = ['T_require', 'T_files_build', 'T_lexer', 'T_parser', 'T_pins_parser', 'T_pins_lexer',
+             # source pins of the hand-modelled modules (gen/kernels_pins.py)
+             'T_pins_build']
 COQ_PROPERTY = 'theories/Properties/C14.vo'
 COQ_EXTRA = ['theories/Proofs/ParserPins.vo', 'theories/Proofs/LexerPins.vo', 'theories/Proofs/ReqEmbedInstProofs.vo', 'theories/Proofs/SpecLexChunk.vo',
-             'theories/Proofs/ReqEmbedEchoGood.vo', 'theories/Proofs/ReqEmbedSpecTokens.vo']
+             'theories/Proofs/ReqEmbedEchoGood.vo', 'theories/Proofs/ReqEmbedSpecTokens.vo',
+             'theories/Proofs/BuildPins.vo']
 MODEL = ('ExC14', 'c14_main.ml')
 MONITOR = ('MonC14', 'c14_mon_main.ml')
 CASE_TIMEOUT = 60
@@ -452,8 +455,36 @@ def mutate_malformed(rng, case):
     return c
 
 
+def alias_case(rng, k):
+    """One file reachable under two require strings (name / name.lua under the default load path, or through two
+    load path entries), the two calls with independently chosen options, in either order and from main or from
+    another package: each require string is its own package table entry, with its own option."""
+    opts = [None, True, False]
+    g1, g2 = opts[k % 3], opts[(k // 3) % 3]
+    body, _ = _body(rng, [], {'start', 'middle', 'end'} if k % 2 else {rng.choice(['start', 'middle', 'end'])}, k % 4 != 3, False, 0)
+    how = (k // 9) % 3
+    if how == 0:
+        n1, n2, files, arg = 'lib', 'lib.lua', {'lib.lua': body}, None
+    elif how == 1:
+        n1, n2, files, arg = 'x', 'eng/x', {'eng/x.lua': body}, '?.lua;eng/?.lua'
+    else:
+        n1, n2, files, arg = 'util', 'util.lua', {'util.lua': body}, None
+    if (k // 27) % 2:
+        n1, n2, g1, g2 = n2, n1, g2, g1
+    s1, _ = _req_stmt(rng, n1, g1, 1)
+    s2, _ = _req_stmt(rng, n2, g2, 2)
+    if (k // 54) % 2:
+        files['main.lua'] = s1 + b'\nm=require("mid")\n'
+        files['mid.lua'] = b'local q=1\n' + s2 + b'\nreturn q\n'
+    else:
+        files['main.lua'] = s1 + b'\n' + s2 + b'\n'
+    return _mk(files, arg=arg, tag='alias')
+
+
 def generate(tier, rng):
     n = 150 if tier == 'quick' else 3000
+    for k in range(24 if tier == 'quick' else 108):
+        yield alias_case(rng, k * (5 if tier == 'quick' else 1) + rng.randrange(5 if tier == 'quick' else 1))
     for i in range(n):
         case = gen_case(rng, tier, ambiguous_ok=(i % 10 == 9))
         if i % 5 == 4:
@@ -486,6 +517,12 @@ def corpus_cases():
                'lib/y.lua': b'return 1\n', 'lib/sub/z.lua': b'return 2\n'}, tag='nested')
     yield _mk({'main.lua': b'x=require("zz")\n'}, tag='missing')
     yield _mk({'main.lua': b'x=require("a")\ny=require("a.lua")\n', 'a.lua': b'return 1\n'}, tag='two-names-one-file')
+    yield _mk({'main.lua': b'a=require("lib")\nb=require("lib.lua",{use_game_loop=true})\n',
+               'lib.lua': b'function _update() u=1 end\nfunction helper() end\nfunction _draw() end\nreturn 1\n'},
+              tag='two-names-one-file-options')
+    yield _mk({'main.lua': b'b=require("lib.lua",{use_game_loop=true})\na=require("lib")\n',
+               'lib.lua': b'function _update() u=1 end\nfunction helper() end\nfunction _draw() end\nreturn 1\n'},
+              tag='two-names-one-file-options')
     yield _mk({'main.lua': b'x=require("a")\n', 'a.lua': b''}, tag='empty-package')
     yield _mk({'main.lua': b'a=require("lib")\nb=require("lib/x")\n', 'lib.lua': b'return 1\n', 'lib/x.lua': b'return 2\n'},
               tag='directory-and-file')
